@@ -65,18 +65,18 @@ def zq_nested_restore(x: fp.Real, y: fp.Real) -> fp.Real:
 prog('mode_in_branch', '''
 @fp.fpy
 def zq_mode_in_branch(x: fp.Real, y: fp.Real) -> fp.Real:
-    with fp.FP64:
+    with fp.FP32:
         t = x * y
         if x < y:
-            with D_RTZ:
+            with S_RTZ:
                 t = t * y + x
             t = t * y
         else:
-            with D_RTP:
+            with S_RTP:
                 t = t * x + y
         r = t * y + t
     return r
-''', ['real', 'real'], ['modes', 'branch'])
+''', ['real', 'real'], ['modes', 'branch'], ctx='fp.FP32', argfmt='fp.FP32')
 
 prog('mode_in_loop', '''
 @fp.fpy
@@ -93,15 +93,15 @@ def zq_mode_in_loop(xs: list[fp.Real], y: fp.Real) -> fp.Real:
 prog('early_return_under_mode', '''
 @fp.fpy
 def zq_early_return_under_mode(x: fp.Real, y: fp.Real) -> fp.Real:
-    with fp.FP64:
+    with fp.FP32:
         a = x * y
-        with D_RTP:
+        with S_RTP:
             b = a * y + x
             if b > y:
                 return b
         c = a * y + x
     return c
-''', ['real', 'real'], ['modes', 'branch'])
+''', ['real', 'real'], ['modes', 'branch'], ctx='fp.FP32', argfmt='fp.FP32')
 
 prog('entry_rtz', '''
 @fp.fpy
@@ -129,7 +129,7 @@ def zq_fma_neg_abs(x: fp.Real, y: fp.Real, z: fp.Real) -> fp.Real:
 prog('phi_and_while', '''
 @fp.fpy
 def zq_phi_and_while(x: fp.Real, y: fp.Real) -> fp.Real:
-    with fp.FP64:
+    with fp.FP32:
         t = x
         k = 0
         while k < 3:
@@ -139,16 +139,16 @@ def zq_phi_and_while(x: fp.Real, y: fp.Real) -> fp.Real:
                 t = t - y
             k = k + 1
     return t
-''', ['real', 'real'], ['loop', 'branch'])
+''', ['real', 'real'], ['loop', 'branch'], ctx='fp.FP32', argfmt='fp.FP32')
 
 prog('minmax_scalar', '''
 @fp.fpy
-def zq_minmax_scalar(x: fp.Real, y: fp.Real, z: fp.Real) -> tuple[fp.Real, fp.Real]:
-    with fp.FP64:
+def zq_minmax_scalar(x: fp.Real, y: fp.Real) -> tuple[fp.Real, fp.Real]:
+    with fp.FP32:
         a = min(x - y, y - x)
-        b = max(x * z, y * z, x)
+        b = max(x * 2, y * 3, x)
     return a, b
-''', ['real', 'real', 'real'], ['minmax', 'tuple'])
+''', ['real', 'real'], ['minmax', 'tuple'], ctx='fp.FP32', argfmt='fp.FP32')
 
 prog('list_sum_loop', '''
 @fp.fpy
@@ -191,12 +191,12 @@ def zq_list_copy_vs_alias(xs: list[fp.Real], y: fp.Real) -> tuple[fp.Real, fp.Re
 prog('list_minmax', '''
 @fp.fpy
 def zq_list_minmax(xs: list[fp.Real], y: fp.Real) -> tuple[fp.Real, fp.Real]:
-    with fp.FP64:
+    with fp.FP32:
         ys = [x - y for x in xs]
         lo = min(ys)
         hi = max(ys)
     return lo, hi
-''', [('list', [1, 2, 3]), 'real'], ['list', 'minmax', 'reduce'])
+''', [('list', [1, 2, 3]), 'real'], ['list', 'minmax', 'reduce'], ctx='fp.FP32', argfmt='fp.FP32')
 
 prog('helper_mutates_list', '''
 @fp.fpy
@@ -243,9 +243,9 @@ def zq_real_exact_small(x: fp.Real, y: fp.Real) -> fp.Real:
 prog('bool_result', '''
 @fp.fpy
 def zq_bool_result(x: fp.Real, y: fp.Real) -> bool:
-    with fp.FP64:
+    with fp.FP32:
         a = x * y
-        with D_RTN:
+        with S_RTN:
             b = a * y + x
     return (a < b or a == y) and not (b != b)
-''', ['real', 'real'], ['bool'])
+''', ['real', 'real'], ['bool'], ctx='fp.FP32', argfmt='fp.FP32')
